@@ -170,8 +170,21 @@ Definition or_wf (c : doccase) : bool :=
   else true.
 
 (* C01 *)
+(* hypothesis of the C01 theorems: no element name below the root contains '@' or '$' (true of
+   every XML name; the tokenizer lets such names through).  Same definition as
+   Proofs/AdmitProofs.v names_plain (Proofs/HypBridge.v proves them equal). *)
+Definition plain_name_b (m : str) : bool := forallb (fun c => negb (c =? 64) && negb (c =? 36)) m.
+Fixpoint names_plain_b (e : element) : bool :=
+  match e with
+  | Elem _ _ _ _ _ ch _ =>
+      (fix go (cs : list (nec * element)) : bool :=
+         match cs with
+         | [] => true
+         | c :: r => plain_name_b (ename (snd c)) && names_plain_b (snd c) && go r
+         end) ch
+  end.
 Definition in_hyp_admits (c : doccase) : bool :=
-  in_hyp_docs c && match dc_impl c with ITree e => clash_free_tree e | _ => false end.
+  in_hyp_docs c && match dc_impl c with ITree e => clash_free_tree e && names_plain_b e | _ => false end.
 Definition or_admits (c : doccase) : bool :=
   if in_hyp_admits c then
     forallb (fun '(o, _, p) =>
